@@ -16,7 +16,7 @@ from .optmodels import LT, lie
 
 NAME = "groupsim"
 SIM_UNIT = "group operations"
-BUDGET = {"quick": {"runs": 1600, "wall": 85}, "thorough": {"runs": 12000, "wall": 2400}}
+BUDGET = {"quick": {"runs": 1400, "wall": 70}, "thorough": {"runs": 12000, "wall": 2400}}
 SHRINK_LISTS = ("ops",)
 PROBES = {"C03": ["history>=1000", "history>=10000", "act4:w=0", "float32", "batched", "scale-steered",
                   "assoc", "act-compose", "identity", "inverse", "reinit-from-identity", "logscale>8", "identity_-through-view:[::2]", "identity_-through-view:[:, 0]", "operand:expanded", "operand:broadcast", "operand:non-contiguous", "operand:deepcopied", "translation-rebased"]}
@@ -32,7 +32,7 @@ def generate(seed, tier, prop="C03"):
     if tier == "thorough":
         n = 10000 if x < 0.04 else 2000 if x < 0.15 else r.randint(5, 400)
     else:
-        n = 4000 if x < 0.02 else 1500 if x < 0.04 else r.randint(5, 300)
+        n = 4000 if x < 0.012 else 1500 if x < 0.03 else r.randint(5, 300)
     cfg = {"fam": fam, "dtype": r.choice(["f64", "f64", "f32"]), "bshape": r.choice([[], [1], [3], [2, 2]]),
            "sigma": r.choice([0.005, 0.05, 0.3, 1.0, 2.5]), "logs_bound": r.choice([3.0, 3.0, 8.0, 16.0]),
            "sdrift": r.choice([0, 0, 0, -1, 1])}
